@@ -59,7 +59,9 @@ namespace layout {
             && m::end_handle - m::service_handle >= s::number_of_attributes     // every attribute gets an own handle
             && cs::ok
             && cs::end_index == m::end_index                                    // characteristics fill the service exactly (include declarations accounted for)
-            && cs::end_handle == m::end_handle;
+            && cs::end_handle == m::end_handle
+            // the run-time mapping of this service starts its characteristics where this walk does (handle and index behind all service / include declarations)
+            && std::is_base_of< d::interate_characteristic_index_mappings< m::service_handle + s::number_of_service_attributes, I + s::number_of_service_attributes, typename s::characteristics >, m >::value;
         static constexpr bool        ok        = this_ok && next::ok;
         static constexpr std::size_t end_index = next::end_index;
     };
